@@ -109,6 +109,9 @@ type DecArshalPlan struct {
 
 	typ reflect.Type
 	Legacy     bool          `json:"v1_default_options"` // DefaultOptionsV1 (legacy error semantics: semantic errors are not fatal)
+	V1Ops      []int         `json:"v1_ops,omitempty"` // v1stream route: 0 Decode, 1 Token, 2 More, 3 InputOffset, 4 Buffered
+	V1Number   bool          `json:"v1_use_number,omitempty"`
+	V1Strict   bool          `json:"v1_disallow_unknown_fields,omitempty"`
 	Noop       int           `json:"noop_opts"` // path-switching options that keep semantics: 1 AllowDuplicateNames on dup-free input, 2 declining Unmarshalers for any, 3 both
 }
 
@@ -124,6 +127,13 @@ func (sc *DecArshal) plan(t *core.Tape, env *Env) *DecArshalPlan {
 	p.Route = []string{"read", "decode"}[ps.Draw(2)]
 	if sc.Mode == "c05" && ps.Chance(1, 8) {
 		p.Route = "v1stream"
+		vs := t.S("v1ops")
+		mix := [][]int{{1, 0, 0, 0, 0}, {3, 2, 2, 1, 1}, {1, 6, 3, 1, 1}, {0, 1, 0, 0, 0}}[vs.Draw(4)]
+		for i := 0; i < 80; i++ {
+			p.V1Ops = append(p.V1Ops, vs.Weighted(mix...))
+		}
+		p.V1Number = vs.Chance(1, 4)
+		p.V1Strict = vs.Chance(1, 6)
 	}
 	p.Target = ps.Draw(len(decTargets))
 	p.TargetName = decTargets[p.Target].Name
@@ -321,44 +331,100 @@ func (sc *DecArshal) Run(t *core.Tape, env *Env) (any, []core.Violation) {
 		// the v1 stream Decoder is a wrapper over jsontext.Decoder: the same
 		// chunk-independence must hold for Decode/More/InputOffset
 		type v1step struct {
+			op   int
 			val  string
 			err  string
 			off  int64
 			more bool
 		}
-		runV1 := func(r io.Reader) []v1step {
+		errName := func(err error) string {
+			if err == nil {
+				return ""
+			}
+			if errors.Is(err, core.ErrInjected) {
+				return "injected"
+			}
+			if err == io.EOF || err == io.ErrUnexpectedEOF {
+				return err.Error()
+			}
+			n := reflect.TypeOf(err).String()
+			var se *jsonv1.SyntaxError
+			if errors.As(err, &se) {
+				n += fmt.Sprint("@", se.Offset)
+			}
+			var te *jsonv1.UnmarshalTypeError
+			if errors.As(err, &te) {
+				n += fmt.Sprint("@", te.Offset, "/", te.Field)
+			}
+			return n
+		}
+		runV1 := func(r io.Reader, delivered func() []byte) ([]v1step, string) {
 			d := jsonv1.NewDecoder(r)
+			if p.V1Number {
+				d.UseNumber()
+			}
+			if p.V1Strict {
+				d.DisallowUnknownFields()
+			}
 			var steps []v1step
-			for k := 0; k < 40; k++ {
-				x := tgt.New()
-				err := d.Decode(x)
-				stp := v1step{off: d.InputOffset(), more: err == nil && d.More()}
-				if err != nil {
-					stp.err = reflect.TypeOf(err).String()
-					if errors.Is(err, core.ErrInjected) {
-						stp.err = "injected"
+			failed := 0
+			for _, op := range p.V1Ops {
+				stp := v1step{op: op}
+				switch op {
+				case 0:
+					x := tgt.New()
+					err := d.Decode(x)
+					stp.err = errName(err)
+					if err == nil {
+						stp.val = renderAny(x)
+					} else {
+						failed++
 					}
-				} else {
-					stp.val = renderAny(x)
+				case 1:
+					tok, err := d.Token()
+					stp.err = errName(err)
+					if err == nil {
+						stp.val = fmt.Sprintf("%T:%v", tok, tok)
+					} else {
+						failed++
+					}
+				case 2:
+					stp.more = d.More()
+				case 3:
+				default:
+					// what was taken from the reader and not yet consumed: always the tail
+					// of the bytes delivered so far (how much is buffered is unspecified)
+					buf, _ := io.ReadAll(d.Buffered())
+					if delivered != nil {
+						got := delivered()
+						if len(buf) > len(got) || !bytes.Equal(got[len(got)-len(buf):], buf) {
+							return steps, fmt.Sprintf("after %d calls Buffered() holds %s, which is not the tail of the %d bytes delivered so far (%s)", len(steps), clip(buf, 60), len(got), clip(got, 60))
+						}
+					}
 				}
+				stp.off = d.InputOffset()
 				steps = append(steps, stp)
-				if err != nil {
-					break
+				if failed >= 3 {
+					break // errors are sticky for Decode; a few repetitions show that
 				}
 			}
-			return steps
+			return steps, ""
 		}
 		p.Read.FaultAt, p.Read.Events = nil, nil // no retry promise documented for the v1 Decoder
 		sim = core.NewSimReader(in, p.Read)
-		got := runV1(sim)
-		want := runV1(bytes.NewReader(append([]byte(nil), in...)))
+		got, bad := runV1(sim, func() []byte { return in[:sim.Pos] })
+		if bad != "" {
+			report("C05", "C05/v1-decoder-buffered-not-conserved", tgt.Name, "%s; input=%s", bad, clip(in, 200))
+		}
+		want, _ := runV1(bytes.NewReader(append([]byte(nil), in...)), nil)
 		st.Steps += int64(len(got))
-		if len(got) != len(want) {
-			report("C05", "C05/v1-decoder-stream-vs-whole/length", tgt.Name, "chunked: %d Decode calls until the end, whole: %d; input=%s", len(got), len(want), clip(in, 200))
+		if bad != "" {
+		} else if len(got) != len(want) {
+			report("C05", "C05/v1-decoder-stream-vs-whole/length", tgt.Name, "chunked: %d calls until the end, whole: %d; input=%s", len(got), len(want), clip(in, 200))
 		} else {
 			for k := range got {
 				if got[k] != want[k] {
-					report("C05", "C05/v1-decoder-stream-vs-whole", tgt.Name, "Decode #%d: chunked %+v ; whole %+v ; input=%s", k, got[k], want[k], clip(in, 200))
+					report("C05", "C05/v1-decoder-stream-vs-whole", tgt.Name, "call #%d (op %d of Decode/Token/More/InputOffset/Buffered): chunked %+v ; whole %+v ; input=%s", k, got[k].op, got[k], want[k], clip(in, 200))
 					break
 				}
 			}
